@@ -16,7 +16,7 @@ mkdir -p /tmp/wt-$id/target/release
 ln -sf /verif/target/release/capy /tmp/wt-$id/target/release/capy
 git apply "$src/patch.diff"
 cd /verif && ./check build > /tmp/confirm_build.log 2>&1 || { git -C /repo checkout -- .; echo "does not build"; exit 2; }
-( cd "$src" && SKIP_BUILD=1 sh "./$demo" > /tmp/confirm_demo_with.log 2>&1 ); demo_with=$?
+( cd "$src" && SKIP_BUILD=1 bash "./$demo" > /tmp/confirm_demo_with.log 2>&1 ); demo_with=$?
 ( cd /repo && cargo nextest run --workspace --no-fail-fast --tool-config-file pb:/w/lib/nextest.toml --profile pb --test-threads 8 --offline 2>&1 | tail -3 > /tmp/confirm_suite.log )
 suite=$(grep -o "[0-9]* tests run: [0-9]* passed[^,]*, [0-9]* skipped\|[0-9]* tests run:.*" /tmp/confirm_suite.log | head -1)
 start=$(date +%s)
@@ -24,7 +24,7 @@ start=$(date +%s)
 end=$(date +%s)
 git -C /repo checkout -- .
 ./check build > /tmp/confirm_build.log 2>&1
-( cd "$src" && SKIP_BUILD=1 sh "./$demo" > /tmp/confirm_demo_without.log 2>&1 ); demo_without=$?
+( cd "$src" && SKIP_BUILD=1 bash "./$demo" > /tmp/confirm_demo_without.log 2>&1 ); demo_without=$?
 rm -rf /tmp/wt-$id/target
 nviol=$(grep -c "^VIOLATION" /tmp/confirm_check.log)
 {
